@@ -213,7 +213,7 @@ pub fn case_from_desc(desc: &str) -> Option<Case> {
 
 pub fn run(tier: Tier) -> i32 {
     let rep = Report::new("C02", tier);
-    rep.set_rule("for each case (PDU length, content pattern, label kind incl. first fragment replaced by re-use, protocol type, fragment id, storage size) the graph sender-progress x real-receiver under 'offer buffer of size b' is explored to closure: small regime = every PDU length 0..=40 (thorough 0..=96) with the complete buffer alphabet 0..=p+24 plus 4097/4098/70000; large regime = PDUs needing fragmentation (4094..9000; thorough up to the 16-bit limit) with buffers {0..=16, 100, 1000, 4090..=4100, 5000, 65535, 70000}, states keyed by position with the receiver snapshot checked equal to the one determined by the position; every produced packet is fed to the real decap; liveness by a strictly decreasing rank for buffers >= 13; distinct = (call, status, buffer regime)");
+    rep.set_rule("for each case (PDU length, content pattern, label kind incl. first fragment replaced by re-use, protocol type, fragment id, storage size) the graph sender-progress x real-receiver under 'offer buffer of size b' is explored to closure: small regime = every PDU length 0..=40 (thorough 0..=96) with the complete buffer alphabet 0..=p+24 plus 4097/4098/70000; medium regime = PDU lengths {100,255,256,257,300,513,1000,2049} with ~35 buffer sizes around the 8-bit boundary; large regime = PDUs needing fragmentation (4094..9000; thorough up to the 16-bit limit) with buffers {0..=16, 100, 1000, 4090..=4100, 5000, 65535, 70000}, states keyed by position with the receiver snapshot checked equal to the one determined by the position; every produced packet is fed to the real decap; liveness by a strictly decreasing rank for buffers >= 13; distinct = (call, status, buffer regime)");
     rep.assume("payload contents: 4 patterns (all contents of length <= 2 are swept by C01/C12); protocol types {0x0800, 0x86DD, 0xFFFF}; fragment ids {0, 1, 255} (all 256 for one PDU length)");
     small(&rep, tier);
     large(&rep, tier);
@@ -234,6 +234,16 @@ fn small(rep: &Report, tier: Tier) {
                     cases.push(Case { pdu: pdu(p, pat), lk, pt: [0x0800u16, 0x86DD, 0xFFFF][(p + li) % 3], frag_id: fid, storage, bufs, desc: format!("pdu_len={} pattern={} label={} frag_id={} storage={}", p, pat, lk.name(), fid, storage) });
                 }
             }
+        }
+    }
+    // medium regime: PDU lengths around integer-width boundaries, reduced buffer alphabet
+    for &p in &[100usize, 255, 256, 257, 300, 513, 1000, 2049] {
+        for (li, &lk) in LKS.iter().enumerate() {
+            let mut bufs: Vec<usize> = vec![0, 6, 7, 8, 10, 13, 14, 16, 17, 64, 100, 131, 255, 256, 257, 258, 259, 260, 261, 262, 263, 264, 265, 266, 270, 515, 1000, 4097, 70000];
+            bufs.extend([p + 3, p + 6, p + 7, p + 10, p + 13]);
+            bufs.sort();
+            bufs.dedup();
+            cases.push(Case { pdu: pdu(p, (li % 4) as u8), lk, pt: 0x0800, frag_id: 255, storage: p, bufs, desc: format!("pdu_len={} pattern={} label={} frag_id=255 storage={}", p, li % 4, lk.name(), p) });
         }
     }
     let n_cases = cases.len();
